@@ -45,6 +45,14 @@ type verifLB struct {
 	argLo     int
 	argHi     int
 	lastWD, lastRemain int
+	maxW      int // upper bound of writer-op sizes (0 = verifMaxLen)
+}
+
+func (v *verifLB) wmax() int {
+	if v.maxW > 0 {
+		return v.maxW
+	}
+	return verifMaxLen
 }
 
 // sizes are kept at or below mallocMax (8 MB) here; the >8 MB allocator bypass has its own harness
@@ -108,7 +116,7 @@ func (v *verifLB) checkLeases() {
 
 // ------------------------------------------------------------------ writer operations
 
-func (v *verifLB) opMalloc() { v.opMallocR(-2, verifMaxLen) }
+func (v *verifLB) opMalloc() { v.opMallocR(-2, v.wmax()) }
 
 func (v *verifLB) opMallocR(lo, hi int) {
 	n := verifNondetInt("malloc.n")
@@ -125,7 +133,7 @@ func (v *verifLB) opMallocR(lo, hi int) {
 	v.pendN += n
 }
 
-func (v *verifLB) opWriteBinary(asString bool) { v.opWriteBinaryR(asString, 0, verifMaxLen) }
+func (v *verifLB) opWriteBinary(asString bool) { v.opWriteBinaryR(asString, 0, v.wmax()) }
 
 func (v *verifLB) opWriteBinaryR(asString bool, lo, hi int) {
 	n := verifNondetInt("wb.n")
@@ -160,7 +168,7 @@ func (v *verifLB) opWriteByte() {
 
 // WriteDirect(p, remain): insert p so that the last `remain` pending bytes come after it.
 // Contract: not mixed with WriteBinary/WriteString in the same batch; 0 <= remain <= pending.
-func (v *verifLB) opWriteDirect() { v.opWriteDirectR(0, verifMaxLen, 0, verifMaxLen) }
+func (v *verifLB) opWriteDirect() { v.opWriteDirectR(0, v.wmax(), 0, verifMaxLen) }
 
 func (v *verifLB) opWriteDirectR(nlo, nhi, rlo, rhi int) {
 	verifAssume(!v.pendBin)
@@ -597,6 +605,10 @@ func (v *verifLB) drain() {
 	all := v.readable()
 	verifAssert(v.b.Len() == all, "C01/drain-len")
 	if all > 0 {
+		// a Peek first: a stale peek cache would show here
+		pk, perr := v.b.Peek(all)
+		verifAssert(perr == nil && len(pk) == all, "C01/drain-peek")
+		verifAssert(v.matches(pk, v.consumed), "C01/drain-peek-bytes")
 		p, err := v.b.Next(all)
 		verifAssert(err == nil && len(p) == all, "C01/drain-next")
 		verifAssert(v.matches(p, v.consumed), "C01/drain-bytes")
